@@ -497,11 +497,14 @@ type Contract struct {
 	Expands  []string
 	ModNothing bool
 	Extern   bool // contract on a function/interface of a dependency (key = full name)
+	OpaqueArith bool // products/quotients of two non-literal operands become uninterpreted (sign facts only) in this body's queries
 	DynPure  bool // dynamic calls without static callee in this body are assumed to modify nothing
 	FrameTag string
 	Updates  []GhostUpdate // ghost assignments executed at every return (model fields only)
 	Exports  []Clause      // Validate only: facts over `raw` (the RawTx), `sigs` (the signatures) and `ctx`, proved as `result0 ==> fact` and
 	                       // assumed in the same type's ProcessCheck/ProcessDeliver/ProcessFee under the validated token
+	AimCheck *Clause       // C07 type-state: at every direct call of a method of a re-aimable store (a type with WithState and a *storage.State
+	                       // field) inside this body the store's state pointer must equal this expression (the deliver state)
 	Assumes  []Clause      // environment assumptions: assumed at entry of the body, NOT checked at call sites, listed in the trusted base
 	Claims   []Clause      // postconditions checked on the body but never assumed by callers (used for clauses that are known findings)
 	Grants   []Clause      // interface methods: history tokens assumed at call sites, not checked on implementations
@@ -607,7 +610,7 @@ func ParseContractFile(path, pkg string) (*ContractFile, error) {
 		body := strings.TrimPrefix(t, "//@")
 		lines = append(lines, ln{body, i + 1})
 	}
-	keywords := []string{"assumes", "exports", "dyncalls", "claims", "grants", "forbids", "footprint", "iterator", "count", "update", "func", "assume", "interface", "method", "requires", "ensures", "modifies", "invariant", "safety", "ghost", "model", "repr", "axiom", "implements", "lemma", "yields", "property", "noinline", "const", "expands", "inline"}
+	keywords := []string{"opaque-arith", "aimcheck", "assumes", "exports", "dyncalls", "claims", "grants", "forbids", "footprint", "iterator", "count", "update", "func", "assume", "interface", "method", "requires", "ensures", "modifies", "invariant", "safety", "ghost", "model", "repr", "axiom", "implements", "lemma", "yields", "property", "noinline", "const", "expands", "inline"}
 	isKw := func(s string) bool {
 		f := strings.Fields(s)
 		if len(f) == 0 {
@@ -764,6 +767,16 @@ func ParseContractFile(path, pkg string) (*ContractFile, error) {
 			}
 			es, tag := splitTag(rest)
 			cur.Forbids = append(cur.Forbids, Clause{Tag: tag, Src: es})
+		case "aimcheck":
+			if cur == nil {
+				return nil, fail(l, fmt.Errorf("aimcheck outside func"))
+			}
+			es, tag := splitTag(rest)
+			e, err := ParseExpr(es)
+			if err != nil {
+				return nil, fail(l, err)
+			}
+			cur.AimCheck = &Clause{Tag: tag, Expr: e, Src: es}
 		case "iterator":
 			if cur != nil {
 				cur.Iterator = true
@@ -802,6 +815,10 @@ func ParseContractFile(path, pkg string) (*ContractFile, error) {
 			}
 			s, _ := splitTag(rest)
 			cur.Safety = s
+		case "opaque-arith":
+			if cur != nil {
+				cur.OpaqueArith = true
+			}
 		case "dyncalls":
 			if cur != nil && strings.HasPrefix(rest, "pure") {
 				cur.DynPure = true
